@@ -64,6 +64,8 @@ RegForm(ins) == [p \in DOMAIN ins.ops |->
                    IF ins.ops[p].k = "mem" THEN [ins.ops[p] EXCEPT !.k = "rw"] ELSE ins.ops[p]]
 \* register type = the class the register form declares at the (first) memory position
 RegType(e, ins) == e.ops[FirstMem(ins)].c
+\* a register form that declares "any register" there leaves the type open: every type of the model
+RegTypes(m, e, ins) == IF RegType(e, ins) = "*" THEN {m.types[x].ty : x \in DOMAIN m.types} ELSE {RegType(e, ins)}
 
 \* ---------------------------------------------------------------- row choice
 RowMem(isa, r, D) == IF "RowIndexFlagsDropped" \in D /\ isa = "aarch64"
@@ -104,9 +106,8 @@ StoreChoices(m, ins, D) ==
           ELSE {TRUE, FALSE}
 
 \* the composed result for register form e, load row lr, store row sr (0 = default) on tables T
-Composed(m, T, ins, e, lr, sr, stores) ==
-  LET ty == RegType(e, ins)
-      tr == TypeRec(m, ty)
+Composed(m, T, ins, e, ty, lr, sr, stores) ==
+  LET tr == TypeRec(m, ty)
       ldu == IF IsLoad(ins) THEN (IF lr = 0 THEN T.ldd ELSE T.ld[lr].u) ELSE << >>
       stu == IF stores THEN (IF sr = 0 THEN T.std ELSE T.st[sr].u) ELSE << >>
       data == AddRows(Row(ldu, IF m.hasldm THEN tr.lm ELSE 2, m.np), Row(stu, IF m.hasstm THEN tr.sm ELSE 2, m.np))
@@ -133,12 +134,12 @@ StepSet(m, T, ins, D) ==
       ownRes == { <<OwnResult(m, m.entries[j]), T>> : j \in own \ {0} }
       unkRes == IF 0 \in own /\ 0 \in reg THEN { <<Unknown(m.np), T>> } ELSE {}
       cmpRes == IF 0 \notin own THEN {} ELSE
-        UNION { LET e == m.entries[r]
-                    ty == RegType(e, ins)
-                    LR == IF IsLoad(ins) THEN LoadRows(m.isa, T.ld, LoadOp(ins), ty, D) ELSE {0}
-                    SR == IF IsStore(ins) THEN StoreRows(m.isa, T.st, StoreOp(ins), ty, D) ELSE {0}
-                IN { <<Composed(m, T, ins, e, lr, sr, s), After(T, ins, lr, sr, s, D)>> :
-                       lr \in LR, sr \in SR, s \in StoreChoices(m, ins, D) }
+        UNION { UNION { LET e == m.entries[r]
+                            LR == IF IsLoad(ins) THEN LoadRows(m.isa, T.ld, LoadOp(ins), ty, D) ELSE {0}
+                            SR == IF IsStore(ins) THEN StoreRows(m.isa, T.st, StoreOp(ins), ty, D) ELSE {0}
+                        IN { <<Composed(m, T, ins, e, ty, lr, sr, s), After(T, ins, lr, sr, s, D)>> :
+                               lr \in LR, sr \in SR, s \in StoreChoices(m, ins, D) }
+                      : ty \in RegTypes(m, m.entries[r], ins) }
               : r \in reg \ {0} }
   IN ownRes \cup unkRes \cup cmpRes
 
